@@ -52,6 +52,7 @@ class PathNode:
         filename: str = None,
         path: str = None,
         length: int = None,
+        padding: bool = False,
     ):
         """
         Hold file information that contributes to the contents of torrent.
@@ -70,7 +71,10 @@ class PathNode:
             parent path, by default None
         length : int, optional
             size, by default None
+        padding : bool, optional
+            the entry is a padding file (BEP 47): zeros, not on disk
         """
+        self.padding = padding
         self.path = path
         self.start = start
         self.stop = stop
@@ -92,6 +96,9 @@ class PathNode:
         bytes
             part of the file's contents
         """
+        if self.padding:
+            stop = self.length if self.stop == -1 else self.stop
+            return bytes(stop - (self.start or 0))
         with open(path, "rb") as fd:
             if self.start:
                 fd.seek(self.start)
@@ -167,6 +174,9 @@ class PieceNode:
             piece_hash = sha1(data).digest()  # nosec
             return piece_hash == self.piece
         pathnode = paths[0]
+        if pathnode.padding:
+            partial = pathnode.get_part(None)
+            return self._find_matches(filemap, paths[1:], data + partial)
         filename = pathnode.filename
         if filename not in filemap:
             return False  # pragma: nocover
@@ -262,14 +272,17 @@ class Metadata(CbMixin, ProgMixin):
             for f in info["files"]:
                 path = f["path"]
                 full = os.path.join(self.name, *path)
+                padding = "p" in f.get("attr", "")
                 self.files.append({
                     "path": Path(full).parent,
                     "filename": path[-1],
                     "full": full,
                     "length": f["length"],
+                    "padding": padding,
                 })
                 self.length += f["length"]
-                self.filenames.add(path[-1])
+                if not padding:
+                    self.filenames.add(path[-1])
 
     def _map_pieces(self):
         """
@@ -368,6 +381,8 @@ class Metadata(CbMixin, ProgMixin):
                 continue
             if piece_node.find_matches(filemap, dest):
                 for pathnode in paths:
+                    if pathnode.padding:
+                        continue
                     if pathnode.full not in copied:
                         copied.append(pathnode.full)
                         dest_path = os.path.join(dest, pathnode.full)
